@@ -6,7 +6,9 @@
 (*   Dim = 1: the history doubles as (a) the values other trials reported at a step + the own values  *)
 (*            of the deciding trial (every split of the history), (b) the own values in step order,    *)
 (*            (c) the competing values of a rung, (d) the finished trials TPE splits, (e) best_trial.  *)
-(*   Dim = 2: Pareto set (best_trials) and non-domination rank for EVERY subset of flipped objectives. *)
+(*   Dim = 2: Pareto set (best_trials) and non-domination rank for EVERY subset of flipped objectives;  *)
+(*            the two columns also serve as the values the current and the best trial reported at their *)
+(*            shared steps for the Wilcoxon decision (ties and zero differences included).              *)
 EXTENDS Mirror
 CONSTANTS Dim, MaxN, MaxV
 
